@@ -77,7 +77,44 @@ pub fn run_scenario(seed: u64, i: usize, tier: Tier) -> Outcome {
     let wcfg = world_cfg(topo, seed ^ i as u64);
     let site = cell.name();
     let replay = replay_of("C08", seed, i, &tcfg, &wcfg.topo);
-    let Some((world, run)) = run_guarded(&wcfg, &tcfg, false, |_| {}, &mut o, &site, &replay, &format!("scenario {i}")) else {
+    // unrelated traffic: in one scenario in five the host receives an ICMP echo *request* (which
+    // the tracer ignores) every half read timeout for the whole round - the round must still end
+    // on time
+    let noisy = r.chance(1, 5) && max / rt <= 200 && max >= rt;
+    let (first_ttl, tc_v6) = (tcfg.first_ttl, v6);
+    let n_noise = (2 * (max + grace.min(max)) / rt.max(1) + 4) as u64;
+    let install = move |world: &std::sync::Arc<crate::world::World>| {
+        if !noisy {
+            return;
+        }
+        let (host4, host6) = {
+            let w = world.inner.lock().unwrap();
+            (w.cfg.host_v4, w.cfg.host_v6)
+        };
+        world.inner.lock().unwrap().inject_on_send.push(Box::new(move |wp, _r| {
+            let mut out = Vec::new();
+            if wp.ttl != first_ttl {
+                return out;
+            }
+            for k in 0..n_noise {
+                let mut icmp = vec![if tc_v6 { 128u8 } else { 8 }, 0, 0, 0, 0x12, 0x34, 0, k as u8, 1, 2, 3, 4];
+                if !tc_v6 {
+                    let c = crate::wire::csum(&[&icmp]);
+                    icmp[2..4].copy_from_slice(&c.to_be_bytes());
+                }
+                let (bytes, src): (Vec<u8>, std::net::IpAddr) = if tc_v6 {
+                    (icmp, "fd00:99::1".parse().unwrap())
+                } else {
+                    let s = std::net::Ipv4Addr::new(10, 99, 0, 1);
+                    (crate::wire::wrap_ip4(s, host4, crate::wire::PROTO_ICMP, 60, 0, 0x4444, &[], &icmp), s.into())
+                };
+                let _ = host6;
+                out.push(crate::forge::injected(k * rt * 500_000 + 300_000, tc_v6, bytes, src, crate::world::PktClass::Noise));
+            }
+            out
+        }));
+    };
+    let Some((world, run)) = run_guarded(&wcfg, &tcfg, false, install, &mut o, &site, &replay, &format!("scenario {i}")) else {
         return o;
     };
     let w = world.inner.lock().unwrap();
@@ -87,6 +124,9 @@ pub fn run_scenario(seed: u64, i: usize, tier: Tier) -> Outcome {
     let a = analyse(&w, 0, &run);
     check_timing(&w, &a, &run, &tcfg, &mut o, &site, &replay, loop_start(&w, 0));
     o.count("rounds", run.rounds.len() as u64);
+    if noisy {
+        o.count("scenarios_with_unrelated_traffic", 1);
+    }
     o.observe("timing_settings", format!("min{min}|max{max}|grace{grace}|rt{rt}"));
     if !run.rounds.is_empty() {
         o.nontrivial = Some(format!("{protocol}|min{min}|max{max}|grace{grace}|rt{rt}|{:?}", dt.map(|d| d / 1_000_000)));
@@ -100,7 +140,7 @@ pub fn run_scenario(seed: u64, i: usize, tier: Tier) -> Outcome {
 
 pub fn run(tier: Tier, seed: u64, only: Option<usize>) -> i32 {
     let mut rep = Report::new("C08", "exploration", tier, seed);
-    rep.rule = "scenario = (min in {0,50,1000}ms, max in {min, min+1, min+40, 5000}ms, grace in {0,10,100,1000}ms, read timeout in {1,10,100}ms) x response placement of each hop and of the target at {never, ~0, 0.2 min, 0.9 min, between min and max, inside the grace window before max, after max}; the 16 combinations of (target answered, duration > min, grace elapsed, duration > max) observed at publish time are listed under distinct_observed.timing_cases; non-trivial = at least one round published; distinct by (protocol, timing setting, target placement)".into();
+    rep.rule = "scenario = (min in {0,50,1000}ms, max in {min, min+1, min+40, 5000}ms, grace in {0,10,100,1000}ms, read timeout in {1,10,100}ms) x unrelated inbound traffic (an ignored ICMP echo request every half read timeout, one scenario in five) x response placement of each hop and of the target at {never, ~0, 0.2 min, 0.9 min, between min and max, inside the grace window before max, after max}; the 16 combinations of (target answered, duration > min, grace elapsed, duration > max) observed at publish time are listed under distinct_observed.timing_cases; non-trivial = at least one round published; distinct by (protocol, timing setting, target placement)".into();
     rep.assumptions = vec![
         "durations are evaluated at the publish callback instant, which is >= the instant the code sampled (durations are monotone, so this can only err towards silence); 10us of slack covers 1ns clock ticks".into(),
         "select() has millisecond granularity, as in trippy's real socket implementation".into(),
